@@ -53,6 +53,13 @@ impl BlockFormatter for BlockIndentRemover {
         while !content.is_char_boundary(current_pos) {
             current_pos += 1;
         }
+        // A line that the removal only shortened is not an indented body line: the block begins on the next line.
+        if bytes.get(start_byte_pos) != Some(&b'\n') {
+            match find_next_line_break_pos(content, bytes, current_pos, false) {
+                Some(pos) => current_pos = pos + 1,
+                None => return vec![],
+            }
+        }
         let first_indent_len = get_indent_len(content, current_pos);
         let indent_len = first_indent_len.saturating_sub(indent_ofs);
 
